@@ -447,6 +447,22 @@ fn shapes(sk: &SecretKey, tier: Tier) -> Vec<Shape> {
         Order::Ascending,
     );
     add(
+        "malformed-first-parent-in-same-slot-then-valid-handover",
+        vec![spec(Some((Slot::new(SLOT), bh("same-slot"))), vec![tx(4, 4)]), spec(Some(p2.clone()), vec![tx(2, 2)])],
+        Expect::Malformed,
+        p2.clone(),
+        vec![],
+        Order::Ascending,
+    );
+    add(
+        "malformed-first-parent-in-later-slot-then-valid-handover",
+        vec![spec(Some((Slot::new(SLOT + 5), bh("future"))), vec![]), spec(None, vec![tx(1, 1)]), spec(Some(p.clone()), vec![])],
+        Expect::Malformed,
+        p.clone(),
+        vec![],
+        Order::CodingFirst,
+    );
+    add(
         "malformed-handover-to-later-slot",
         vec![spec(Some(p.clone()), vec![]), spec(Some((Slot::new(SLOT + 1), bh("future2"))), vec![])],
         Expect::Malformed,
